@@ -169,6 +169,21 @@ def run(R: vlib.Run):
                             w = sel - sel.sum(1, keepdims=True) * wts + bp
                             if nbits == 32 or (w.min() >= 0 and w.max() <= 255):
                                 check("remove_zerodm", w, nbits, tol=1.0 if nbits == 8 else 1e-3)
+                    # --- zero-DM data flow against the Gallina pipeline: the real method on a float32 file, any sub-range, with the bandpass
+                    #     replaced by integer weights summing to 1 (so chanwts = bpass exactly and every float32 operation is exact)
+                    if nbits == 32:
+                        bpw = nprng.integers(-3, 4, nch); bpw[-1] = 1 - int(bpw[:-1].sum())
+                        class _BP:  # noqa: E306
+                            data = bpw.astype(np.float32)
+                        fil.bandpass = lambda **kw: _BP
+                        try:
+                            R.case(("zerodm-flow", start, nsamps, gulp), nontrivial=multi, regime="remove_zerodm")
+                            if attempt("remove_zerodm", lambda: fil.remove_zerodm(outfile_name=out, gulp=gulp, start=start, nsamps=nsamps, quiet=True)):
+                                h3, got3, _ = reread(out)
+                                if h3 != "exc":
+                                    corr.append(("zerodm", x, gulp, start, nsamps, bpw.tolist() + bpw.tolist(), np.rint(got3).astype(np.int64).ravel().tolist()))
+                        finally:
+                            del fil.bandpass
         # ---- sub-banding on an ascending band (negative delays are referred to the earliest channel) -----------
         for nbits in (8, 32):
             nch = NCH[nbits]
@@ -203,7 +218,7 @@ def run(R: vlib.Run):
         rng.shuffle(corr)
         corr = corr[: (400 if R.tier == "quick" else 2000)]
         per = 200
-        code = {"invert": 0, "down": 1, "subband": 2}
+        code = {"invert": 0, "down": 1, "subband": 2, "zerodm": 3}
         for si in range(0, len(corr), per):
             sh = corr[si:si + per]
             rows = [f"({code[a]}, {vlib.zlist(x.ravel())}, {x.shape[1]}, {x.shape[0]}, ({g}, {s}, {n}), {vlib.zlist(p)}, {vlib.zlist(o)})" for a, x, g, s, n, p, o in sh]
